@@ -15,7 +15,11 @@ def run(ctx):
     # label, null, failing expression), REMOVE (property, label), DELETE / DETACH DELETE (nodes, relationships), with RETURN
     scripts = ctx.tlc_gen("MC_CypherWrite", gen("C04", 6, 4, 3, inv=INV, props=PROPS, rich=not q), "cover", timeout=6000, workers=1)
     scripts = cap(ctx, scripts, 4000 if q else 80000, "cover")
-    walks = sim_walks(ctx, gen("C04", 8, 6, 6, view=False, emit="", inv=INV, rich=True, sim=True), "walks", 200 if q else 3000, 8)
+    if not q:
+        # one statement deeper over the basic alphabet
+        deep = ctx.tlc_gen("MC_CypherWrite", gen("C04", 6, 4, 4, inv=INV, props=PROPS), "cover4", timeout=6000, workers=1)
+        scripts = scripts + cap(ctx, [s for s in deep if len(s) == 4], 40000, "cover4")
+    walks = sim_walks(ctx, gen("C04", 8, 6, 6, view=False, emit="", inv=INV, rich=True, sim=True), "walks", 200 if q else 6000, 8)
     ctx.assume("graphs of <= 6 nodes / 4 relationships grown from the empty graph by the statements themselves; labels {A,B}, keys {k,p}, "
                "integer values; no constraints or indexes (C05 / C11 cover those)",
                "returned rows are compared as bags; the order in which MATCH feeds rows to the write clause is left open",
